@@ -440,6 +440,8 @@ def run_check(prop, tier, seed, replay=None):
                 obligations_broken.append("leanchecker rejects PyGqlModel.Props." + prop)
     ctx.model_ok = b["driver_ok"]
     ctx.broken_obligations = obligations_broken
+    # the exploration budget starts once the build and the audit are done
+    ctx.deadline = time.time() + (ctx.deadline - ctx.t0)
 
     # ---- correspondence + direct oracle (= the failing-input search) ----
     infra_error = None
